@@ -76,7 +76,7 @@ Example poison_run :
 Proof. vm_compute. repeat split; reflexivity. Qed.
 
 Example poison_run_end :
-  let st := end_of 1 0 (poison_acts ++ steps 1 7 ++ steps 2 4 ++ [Start 2%nat OPop] ++ steps 2 13) in
+  let st := end_of 1 0 (poison_acts ++ steps 1 7 ++ steps 2 4 ++ [Start 2%nat OPop] ++ steps 2 14) in
   g_ovf st = false /\ g_nodes st = [1; 3] /\ g_retired st = [1] /\ head st = 3 /\ tail st = 3 /\
   g_fate st 3 0 = FConsumed 2 /\ g_pushed st = [2] /\ g_popped st = [2] /\ contents 1 st = [] /\
   g_ptk st = [(1, 0); (3, 0)] /\ g_dtk st = [(1, 0); (3, 0)] /\ th st 1%nat = Idle /\ th st 2%nat = Idle.
@@ -100,18 +100,42 @@ Example link_race_end :
   contents 1 st = [2; 5; 3] /\ pushi st 4 = 0.
 Proof. vm_compute. repeat split; reflexivity. Qed.
 
-(** * head overtakes tail (E = 1): pusher 2 links a node and stops before its tail CAS; a popper drains
-    the old node, advances head and retires the old node while tail still points to it.  (In the real
-    code the stopped pusher still holds its guard on that node until the tail CAS.) *)
+(** * head would overtake tail (E = 1): pusher 2 links a node and stops before its tail CAS; a popper drains
+    the old node and hands over to the next one.  With the tail CAS (16) in pop the popper first swings
+    _tail off the old node, then advances head and retires the old node: _tail never points to a retired
+    node ([ram_tail_not_retired]); the stopped pusher's own tail CAS will fail. *)
 Definition tail_retired_acts : list action :=
   [Start 1%nat (OPush 10)] ++ steps 1 4 ++ [Start 2%nat (OPush 20)] ++ steps 2 7 ++
   [Start 3%nat OPop] ++ steps 3 8 ++ [Start 3%nat OPop] ++ steps 3 7.
 
-Example tail_retired_run :
-  let st := end_of 1 0 tail_retired_acts in
+Example tail_swung_by_pop_run :
+  let st := end_of 1 0 (tail_retired_acts ++ steps 3 1) in
+  g_ovf st = false /\ th st 2%nat = P7 1 4 /\ g_nodes st = [1; 4] /\ g_retired st = [1] /\ head st = 4 /\ tail st = 4 /\
+  g_popped st = [2] /\ contents 1 st = [3].
+Proof. vm_compute. repeat split; reflexivity. Qed.
+
+Lemma tail_swung_by_pop_example :
+  let st := end_of 1 0 (tail_retired_acts ++ steps 3 1) in
+  reach init (step 1 0) st /\
+  g_ovf st = false /\ th st 2%nat = P7 1 4 /\ g_nodes st = [1; 4] /\ g_retired st = [1] /\ head st = 4 /\ tail st = 4.
+Proof. split; [apply run_reach|]. pose proof tail_swung_by_pop_run as H. cbv zeta in H. tauto. Qed.
+
+(** the code BEFORE the repair ([step_gen E R true]: no tail CAS in pop): on the same schedule the old node is
+    retired while _tail still points to it (in the real code with hazard_eras a later push reaches the
+    reclaimed node through _tail) *)
+Definition end_of_old (E R : N) (acts : list action) : state := fst (fst (run (step_gen E R true) init acts)).
+
+Example tail_retired_run_old :
+  let st := end_of_old 1 0 tail_retired_acts in
   g_ovf st = false /\ th st 2%nat = P7 1 4 /\ g_nodes st = [1; 4] /\ g_retired st = [1] /\ head st = 4 /\ tail st = 1 /\
   g_popped st = [2] /\ contents 1 st = [3].
 Proof. vm_compute. repeat split; reflexivity. Qed.
+
+Lemma ram_tail_not_retired_old_refuted :
+  ~ (forall st, reach init (step_gen 1 0 true) st -> forall n, In n (g_retired st) -> tail st <> n).
+Proof.
+  intros H. apply (H (end_of_old 1 0 tail_retired_acts) (run_reach _ _ _ _ _ _) 1); vm_compute; [left|]; reflexivity.
+Qed.
 
 (** * Solo runs *)
 Example solo_push_fresh : exists s, solo_run (step 2 1) Step idle 1 100 0 (end_of 2 1 [Start 1%nat (OPush 7)]) = Done s 4.
